@@ -79,9 +79,9 @@ Definition dump_balcr (b : BalCr) : list row :=
 Definition nz_cr (ep : EP) (f : BalCr -> Qc) : list row :=
   flat_map (fun b => if qeqb (f b) 0 then [] else sc (carrier_name (cx_cr (bc_ctx b))) (f b)) (ep_bal ep).
 
-(** [ka] = 1 for the absolute balance, 1/area for balance_m2 *)
-Definition dump_balance (ep : EP) (ka : Qc) : list row :=
-  let m v := ka * v in let mr r := rscale ka r in
+(** the absolute balance *)
+Definition dump_balance_abs (ep : EP) : list row :=
+  let m (v : Qc) := v in let mr (r : RNC) := r in
   let srvs := t_srvs ep in let srcs := t_srcs ep in
   pre "needs" (opt_sc "ACS" (option_map m (needs_sum (nd_ACS (ep_needs ep))))
             ++ opt_sc "CAL" (option_map m (needs_sum (nd_CAL (ep_needs ep))))
@@ -110,11 +110,15 @@ Definition dump_balance (ep : EP) (ka : Qc) : list row :=
     ++ rn "b" (mr (t_we_b ep)) ++ pre "b_by_srv" (flat_map (fun s => rn (service_name s) (mr (t_we_b_srv ep s))) srvs)
     ++ rn "del" (mr (t_we_del ep)) ++ rn "exp_a" (mr (t_we_exp_a ep)) ++ rn "exp" (mr (t_we_exp ep))).
 
+(** balance_m2: every figure of the absolute balance multiplied by 1/area (all_carriers.rs:60-141) *)
+Definition scale_rows (ka : Qc) (rs : list row) : list row := map (fun r => (fst r, ka * snd r)) rs.
+Definition dump_balance_m2 (ep : EP) : list row := scale_rows (k_area ep) (dump_balance_abs ep).
+
 Definition dump_ep (ep : EP) : list row :=
   sc "k_exp" (ep_k ep) ++ sc "arearef" (ep_area ep)
   ++ pre "balance_cr" (flat_map (fun b => pre (carrier_name (cx_cr (bc_ctx b))) (dump_balcr b)) (ep_bal ep))
-  ++ pre "balance" (dump_balance ep 1)
-  ++ pre "balance_m2" (dump_balance ep (k_area ep))
+  ++ pre "balance" (dump_balance_abs ep)
+  ++ pre "balance_m2" (dump_balance_m2 ep)
   ++ sc "rer" (t_rer ep) ++ sc "rer_nrb" (t_rer_nrb ep) ++ sc "rer_onst" (t_rer_onst ep).
 
 Definition errkind_name (k : errkind) : string :=
